@@ -3,6 +3,11 @@
 //   - verifHeld(1) after it, verifHeld(-1) before every x.Unlock() / x.RUnlock()
 //     (also inside `defer x.Unlock()`)
 //   - verifPreLock("<func>:unlocked") after every statement x.Unlock() / x.RUnlock()
+//   - verifPreLock("@L:<lock>") / ("@R:<lock>") before every Lock/RLock and verifPreLock("@U:<lock>")
+//     before every unlock, where <lock> names the mutex by the struct type that owns it
+//     (e.g. kvElection.mu): record-only calls from which the simulator builds the order in which
+//     locks are nested (lock-order cycles = potential deadlocks)
+//
 // so that the simulator can preempt a goroutine immediately before any lock acquisition and
 // never parks one that holds a lock. If a lock call appears in a form it does not handle, it
 // reports it and exits with status 3: the build then uses the uninstrumented tree.
@@ -46,6 +51,63 @@ type rewriter struct {
 	fn      string
 	handled map[ast.Expr]bool
 	sites   int
+	vars    map[string]string // identifier -> struct type (receiver, parameters)
+}
+
+// structFields: struct type -> field -> type name (pointers and package qualifiers stripped)
+var structFields = map[string]map[string]string{}
+
+func typeName(e ast.Expr) string {
+	switch t := e.(type) {
+	case *ast.StarExpr:
+		return typeName(t.X)
+	case *ast.Ident:
+		return t.Name
+	case *ast.SelectorExpr:
+		return typeName(t.X) + "." + t.Sel.Name
+	}
+	return ""
+}
+
+func exprString(e ast.Expr) string {
+	switch t := e.(type) {
+	case *ast.Ident:
+		return t.Name
+	case *ast.SelectorExpr:
+		return exprString(t.X) + "." + t.Sel.Name
+	}
+	return "?"
+}
+
+// lockName names the mutex of the call x.Lock(): "<struct type>.<field>" when the chain of
+// selectors can be resolved from the receiver or a parameter, else "<func>:<expression>".
+func (r *rewriter) lockName(c ast.Expr) string {
+	call := c.(*ast.CallExpr)
+	x := call.Fun.(*ast.SelectorExpr).X
+	var chain []string
+	cur := x
+	for {
+		if s, ok := cur.(*ast.SelectorExpr); ok {
+			chain = append([]string{s.Sel.Name}, chain...)
+			cur = s.X
+			continue
+		}
+		break
+	}
+	if id, ok := cur.(*ast.Ident); ok && len(chain) > 0 {
+		if t := r.vars[id.Name]; t != "" {
+			for _, f := range chain[:len(chain)-1] {
+				t = structFields[t][f]
+				if t == "" {
+					break
+				}
+			}
+			if t != "" {
+				return t + "." + chain[len(chain)-1]
+			}
+		}
+	}
+	return r.fn + ":" + exprString(x)
 }
 
 func (r *rewriter) stmts(list []ast.Stmt) []ast.Stmt {
@@ -56,12 +118,17 @@ func (r *rewriter) stmts(list []ast.Stmt) []ast.Stmt {
 			if name, c := lockCall(s.X); c != nil && !r.handled[c] {
 				r.handled[c] = true
 				r.sites++
+				ln := r.lockName(c)
 				switch name {
 				case "Lock", "RLock":
-					out = append(out, call("verifPreLock", lit(r.fn)), st, call("verifHeld", num("1")))
+					tag := "@L:"
+					if name == "RLock" {
+						tag = "@R:"
+					}
+					out = append(out, call("verifPreLock", lit(tag+ln)), call("verifPreLock", lit(r.fn)), st, call("verifHeld", num("1")))
 				default:
 					// and a yield right after the release: the moment a waiter gets in
-					out = append(out, call("verifHeld", &ast.UnaryExpr{Op: token.SUB, X: num("1")}), st, call("verifPreLock", lit(r.fn+":unlocked")))
+					out = append(out, call("verifPreLock", lit("@U:"+ln)), call("verifHeld", &ast.UnaryExpr{Op: token.SUB, X: num("1")}), st, call("verifPreLock", lit(r.fn+":unlocked")))
 				}
 				continue
 			}
@@ -70,6 +137,7 @@ func (r *rewriter) stmts(list []ast.Stmt) []ast.Stmt {
 				r.handled[c] = true
 				r.sites++
 				fl := &ast.FuncLit{Type: &ast.FuncType{Params: &ast.FieldList{}}, Body: &ast.BlockStmt{List: []ast.Stmt{
+					call("verifPreLock", lit("@U:"+r.lockName(c))),
 					call("verifHeld", &ast.UnaryExpr{Op: token.SUB, X: num("1")}), &ast.ExprStmt{X: c}}}}
 				out = append(out, &ast.DeferStmt{Call: &ast.CallExpr{Fun: fl}})
 				continue
@@ -83,6 +151,33 @@ func (r *rewriter) stmts(list []ast.Stmt) []ast.Stmt {
 func main() {
 	dir := os.Args[1]
 	files, _ := filepath.Glob(filepath.Join(dir, "*.go"))
+	for _, path := range files {
+		if strings.HasSuffix(path, "_test.go") {
+			continue
+		}
+		f, err := parser.ParseFile(token.NewFileSet(), path, nil, 0)
+		if err != nil {
+			continue
+		}
+		ast.Inspect(f, func(n ast.Node) bool {
+			ts, ok := n.(*ast.TypeSpec)
+			if !ok {
+				return true
+			}
+			st, ok := ts.Type.(*ast.StructType)
+			if !ok {
+				return true
+			}
+			m := map[string]string{}
+			for _, fl := range st.Fields.List {
+				for _, nm := range fl.Names {
+					m[nm.Name] = typeName(fl.Type)
+				}
+			}
+			structFields[ts.Name.Name] = m
+			return true
+		})
+	}
 	total := 0
 	for _, path := range files {
 		base := filepath.Base(path)
@@ -102,6 +197,21 @@ func main() {
 				continue
 			}
 			r.fn = fd.Name.Name
+			r.vars = map[string]string{}
+			if fd.Recv != nil {
+				for _, fl := range fd.Recv.List {
+					for _, nm := range fl.Names {
+						r.vars[nm.Name] = typeName(fl.Type)
+					}
+				}
+			}
+			if fd.Type.Params != nil {
+				for _, fl := range fd.Type.Params.List {
+					for _, nm := range fl.Names {
+						r.vars[nm.Name] = typeName(fl.Type)
+					}
+				}
+			}
 			ast.Inspect(fd.Body, func(n ast.Node) bool {
 				switch b := n.(type) {
 				case *ast.BlockStmt:
